@@ -139,6 +139,15 @@ def gen_case(rnd):
     if L > 2 and rnd.random() < 0.3:
         ri, rj = rnd.sample(range(L), 2)
         inter.append([[ri, rnd.choice(resdefs[seq[ri]]['anames'])], [rj, rnd.choice(resdefs[seq[rj]]['anames'])]])
+    if rnd.random() < 0.2:
+        # atoms that were renamed upstream (a modification's replace: atomname): they show another atomname and remember the
+        # canonical one as _old_atomname, which is what mappings are matched on
+        rname = rnd.choice(seq)
+        an = rnd.choice(resdefs[rname]['anames'])
+        everywhere = rnd.random() < 0.6
+        for a in atoms:
+            if seq[a[1]] == rname and a[2] == an and (everywhere or rnd.random() < 0.5):
+                a.append(an[0] + 'Z9')
     out = {'resdefs': resdefs, 'seq': seq, 'resids': resids, 'atoms': atoms, 'inter': inter,
            'tag': rnd.randrange(10 ** 9)}
     if pair:
@@ -211,10 +220,14 @@ def build(case):
         mappings['%s+%s' % (pr['x'], pr['y'])] = Mapping(ba, bb, mp, {}, ff_from=ffa, ff_to=ffb, extra=(), names=(pr['x'], pr['y']))
     mol = Molecule(force_field=ffa, nrexcl=1)
     key = {}
-    for k, ri, an in case['atoms']:
+    for entry in case['atoms']:
+        k, ri, an = entry[:3]
         key[(ri, an)] = k
         mol.add_node(k, atomname=an, resname=case['seq'][ri], resid=case['resids'][ri], chain='A', element=an[0],
                      position=np.array([(k * 7 % 13) / 13.0, (k * 5 % 11) / 11.0, (k * 3 % 7) / 7.0]))
+        if len(entry) > 3:
+            mol.nodes[k]['atomname'] = entry[3]
+            mol.nodes[k]['_old_atomname'] = an
     for ri, rname in enumerate(case['seq']):
         for u, v in case['resdefs'][rname]['edges']:
             mol.add_edge(key[(ri, u)], key[(ri, v)])
@@ -238,7 +251,7 @@ def placements_of(case, mol):
 
         def node_ok(g, p, rname=rname):
             d = mol.nodes[g]
-            return d['atomname'] == p and d['resname'] == rname and d['element'] == p[0]
+            return d.get('_old_atomname', d['atomname']) == p and d['resname'] == rname and d['element'] == p[0]
 
         def edge_ok(g1, g2, p1, p2):
             return mol.nodes[g1]['resid'] == mol.nodes[g2]['resid']
@@ -257,7 +270,7 @@ def placements_of(case, mol):
         def node_ok2(g, p):
             d = mol.nodes[g]
             q = P.nodes[p]
-            return d['atomname'] == q['an'] and d['resname'] == q['rn'] and d['element'] == q['an'][0]
+            return d.get('_old_atomname', d['atomname']) == q['an'] and d['resname'] == q['rn'] and d['element'] == q['an'][0]
 
         def edge_ok2(g1, g2, p1, p2):
             # an edge inside one residue of the pattern must lie inside one residue of the molecule, and vice versa
